@@ -3,7 +3,7 @@
    the fate of iteration variables from Gen/EvalTables.v (regenerated from the source on every run). *)
 From Coq Require Import String List ZArith Bool Sorted.
 Import ListNotations.
-Require Import Verif.Eval.Value Verif.Eval.Interp Verif.Eval.Tables Verif.Eval.PureProps Verif.Eval.SemProps Verif.Gen.EvalTables.
+Require Import Verif.Eval.Value Verif.Eval.Interp Verif.Eval.Tables Verif.Eval.PureProps Verif.Eval.SemProps Verif.Eval.TotalProps Verif.Gen.EvalTables.
 Local Open Scope string_scope.
 
 (* ---- purity ---- *)
@@ -186,3 +186,12 @@ Print Assumptions C10_where_rows.
 Theorem C10_eval_deterministic : forall fuel vs sc e r1 r2, eval fuel vs sc e = r1 -> eval fuel vs sc e = r2 -> r1 = r2.
 Proof. exact eval_deterministic. Qed.
 Print Assumptions C10_eval_deterministic.
+
+(* ---- totality on well-typed expressions: PARTIAL (see Eval/TotalProps.v for the fragment and what is missing:
+        transforms / lets / records / attribute access / view calls / flatten / != / division / str) ---- *)
+Theorem C10_eval_total_on_typed_partial : forall vs G e t,
+  assoc String.eqb ".count" vs = None -> has_type G e t ->
+  exists k, forall n sc, k <= n -> env_ok G sc ->
+    exists v sc', eval n vs sc e = Ok (v, sc') /\ vtyped v t = true /\ env_ok G sc'.
+Proof. exact eval_total_on_typed_partial. Qed.
+Print Assumptions C10_eval_total_on_typed_partial.
